@@ -48,7 +48,7 @@ def tasks(tier, seed):
         # the same with get_last_point() interposed between pull and receive_reward in at most one (thorough: two) rounds
         ts.append({"kind": "algo", "label": "fullq/%s/%s" % (label, cfg["part"]), "cfg": cfg, "mode": "full", "T": (3 if vroom else 5) if tier == "quick" else (4 if vroom else 7),
                    "R": list(configs.R2), "query_k": 1 if tier == "quick" else 2, "interpose": True})
-        bases = ("peak", "alt") if tier == "quick" else ("peak", "alt", "zero", "negpeak", "twopeak")
+        bases = ("peak", "alt", "off8") if tier == "quick" else ("peak", "alt", "off8", "zero", "negpeak", "twopeak")
         if wrapper and tier == "quick":
             if cfg["part"] != "Binary":
                 continue
